@@ -5,7 +5,7 @@ case: ( trigger roller pre a0 ops )   -- see harness/src/rolling_c05.rs
          | [3, n, modulate, t0]  the real TimeTrigger (n seconds) under the hook clock starting at t0;
            the MODEL is given the oracle trigger [2, 1, script] with the decisions predicted by
            `time_script` from the trigger's documented schedule (the schedule itself is C16's subject)
-  roller : [0] | [1, base, count, gz]
+  roller : [0] | [1, base, count, gz]     gz: 0 plain / 1 gzip / 2 zstd (one abstract codec in the model)
   pre    : [0] | [1, bytes] | [2, bytes] the log path is a symbolic link to a file holding the bytes
   roller : [1, base, count, gz, shape, bg]  shape 3 = archives in a directory that is a symbolic link to ANOTHER
            file system (rename refuses with EXDEV: move_file's copy+delete fall-back, compress across mounts);
